@@ -136,6 +136,18 @@ theorem readerSkip_next_safe (p : MRsd) (t : UInt8) (s : Slice) (p' : MRsd) (hi 
   obtain ⟨a, b, c⟩ := memReaderDecNext_ok p t s p' hn hi
   exact ⟨a, a.nofault, c, fun h' he => by rw [b]; exact a.env he⟩
 
+/-- rsd_retained_not_freed: along every history of a ReaderSkipDecoder — Next calls of any type over any
+    source, Release followed by re-use of the pooled decoder (which RETAINS its buffer), environment
+    steps — the buffer the decoder holds is never in the free list: it is a live pool object (owner
+    `live`, i.e. obtained from Malloc and not given back), it is the full slice of that object, and no
+    fault (use after free, double free, foreign free) has been logged. -/
+theorem rsd_retained_not_freed (src : Src) (h0 : Heap) (hf : h0.faults = []) {p : MRsd}
+    (t : RsdSteps ⟨Slice.nil, 0, src, h0⟩ p) :
+    p.h.faults = [] ∧
+    (0 < p.b.cap → ∃ x, p.h.obj? p.b.obj = some x ∧ x.owner = .live ∧ p.b.off = 0 ∧ p.b.cap = x.data.length) := by
+  have hi := t.inv (RsdInv.init src h0 hf)
+  exact ⟨hi.nofault, hi.buf_ok⟩
+
 /-! ## writer -/
 
 /-- regions_live_disjoint: a region `A` handed out by `Malloc` is, at every later point of every
